@@ -5,6 +5,7 @@
 #include "jansson_model.h"
 #include "jwt_setget_c.h"
 #include "jwt_c.h"
+extern char *g_enc_out; extern int g_enc_rc;
 #ifdef VERIF_TU_JWT_ENCODE
 static int jwt_encode(jwt_t *jwt, char **out);
 static int write_js(const json_t *js, char **buf);
@@ -33,6 +34,8 @@ __CPROVER_requires(out == NULL || __CPROVER_w_ok(out, sizeof(*out)))
 __CPROVER_requires(g_cat_calls == 0 && g_js_calls == 0 && g_spf_dst == NULL && reg_cnt == 0)
 __CPROVER_assigns(out != NULL: *out; jwt->error, SPEC_ERRMSG_FRAME(jwt), ENC_GHOSTS)
 __CPROVER_ensures(__CPROVER_return_value == 0 ==> (out != NULL && *out != NULL))
+/* a failed encode hands nothing out (jwt_encode_str relies on it) */
+__CPROVER_ensures((__CPROVER_return_value != 0 && out != NULL) ==> *out == NULL)
 __CPROVER_ensures((__CPROVER_return_value == 0 && jwt->alg == JWT_ALG_NONE) ==> (g_js_calls == 0 && g_cat_calls == 3 &&
 	*out == g_cpy_dst && g_cat_dst[2] == g_cpy_dst && g_cat_src[2][0] == '.' && g_cat_src[2][1] == 0))
 __CPROVER_ensures((__CPROVER_return_value == 0 && jwt->alg != JWT_ALG_NONE) ==> (g_js_calls == 1 && g_js_ret == 0 && g_js_alg == jwt->alg &&
@@ -42,4 +45,48 @@ __CPROVER_ensures((__CPROVER_return_value == 0 && jwt->alg != JWT_ALG_NONE) ==> 
 __CPROVER_ensures(__CPROVER_return_value == 0 ==> g_json_dumps_flags == (JSON_SORT_KEYS | JSON_COMPACT))
 __CPROVER_ensures(SPEC_ERRMSG_TERMINATED(jwt))
 ;
+
+/* jwt_head_setup: typ "JWT" (kept if the application set its own) for signed tokens only,
+ * alg always, by its RFC name, replacing whatever was there (C10, C03); failures flagged (C14). */
+extern char g_alg_name[8];
+extern unsigned g_hset_calls; extern const char *g_hset_name[2], *g_hset_val[2]; extern int g_hset_replace[2], g_hset_ret[2], g_hset_type[2];
+#define HSET_GHOSTS g_hset_calls, __CPROVER_object_whole(g_hset_name), __CPROVER_object_whole(g_hset_val), __CPROVER_object_whole(g_hset_replace), \
+	__CPROVER_object_whole(g_hset_ret), __CPROVER_object_whole(g_hset_type), __CPROVER_object_whole(g_alg_name)
+#define NAME3(s, a, b, c) ((s) != NULL && (s)[0] == (a) && (s)[1] == (b) && (s)[2] == (c) && (s)[3] == 0)
+#define HSET_IS_ALG(k) (NAME3(g_hset_name[k], 'a', 'l', 'g') && g_hset_type[k] == JWT_VALUE_STR && g_hset_replace[k] == 1 && \
+	g_hset_ret[k] == JWT_VALUE_ERR_NONE && g_hset_val[k] != NULL && SPEC_NAME_IS(g_hset_val[k], jwt->alg))
+int contract_C10_jwt_head_setup(jwt_t *jwt)
+__CPROVER_requires(__CPROVER_is_fresh(jwt, sizeof(*jwt)) && SPEC_ERRMSG_TERMINATED(jwt) && g_hset_calls == 0)
+__CPROVER_assigns(jwt->error, SPEC_ERRMSG_FRAME(jwt), HSET_GHOSTS)
+__CPROVER_ensures(__CPROVER_return_value == 0 || __CPROVER_return_value == 1)
+__CPROVER_ensures(__CPROVER_return_value != 0 ==> (jwt->error == 1 && jwt->error_msg[0] != 0))
+__CPROVER_ensures(__CPROVER_return_value == 0 ==> jwt->error == __CPROVER_old(jwt->error))
+__CPROVER_ensures(SPEC_ERRMSG_TERMINATED(jwt))
+SPEC_ERR_MONOTONE(jwt)
+/* an algorithm without a name cannot be written */
+__CPROVER_ensures(!SPEC_ALG_KNOWN(jwt->alg) ==> __CPROVER_return_value != 0)
+/* unsigned token: alg only */
+__CPROVER_ensures((__CPROVER_return_value == 0 && jwt->alg == JWT_ALG_NONE) ==> (g_hset_calls == 1 && HSET_IS_ALG(0)))
+/* signed token: typ "JWT" unless the application has one, then alg */
+__CPROVER_ensures((__CPROVER_return_value == 0 && jwt->alg != JWT_ALG_NONE) ==> (g_hset_calls == 2 && HSET_IS_ALG(1) &&
+	NAME3(g_hset_name[0], 't', 'y', 'p') && NAME3(g_hset_val[0], 'J', 'W', 'T') && g_hset_type[0] == JWT_VALUE_STR && g_hset_replace[0] == 0 &&
+	(g_hset_ret[0] == JWT_VALUE_ERR_NONE || g_hset_ret[0] == JWT_VALUE_ERR_EXIST)))
+;
+/* jwt_encode_str: the string jwt_encode produced, or NULL when it failed.  jwt_encode (static) is
+ * replaced by the projection of contract_C10_jwt_encode that jwt_encode_str needs, plus recording. */
+int contract_rec_jwt_encode(jwt_t *jwt, char **out)
+__CPROVER_requires(__CPROVER_rw_ok(jwt, sizeof(*jwt)) && out != NULL && __CPROVER_w_ok(out, sizeof(*out)) && SPEC_ERRMSG_TERMINATED(jwt))
+__CPROVER_assigns(*out, jwt->error, SPEC_ERRMSG_FRAME(jwt), g_enc_out, g_enc_rc)
+__CPROVER_ensures(g_enc_rc == __CPROVER_return_value && g_enc_out == *out)
+__CPROVER_ensures(__CPROVER_return_value != 0 ==> *out == NULL)
+__CPROVER_ensures(__CPROVER_return_value == 0 ==> *out != NULL)
+__CPROVER_ensures(SPEC_ERRMSG_TERMINATED(jwt))
+;
+char *contract_C10_jwt_encode_str(jwt_t *jwt)
+__CPROVER_requires(__CPROVER_is_fresh(jwt, sizeof(*jwt)) && SPEC_ERRMSG_TERMINATED(jwt))
+__CPROVER_assigns(jwt->error, SPEC_ERRMSG_FRAME(jwt), g_enc_out, g_enc_rc)
+__CPROVER_ensures((g_enc_rc == 0) == (__CPROVER_return_value != NULL))
+__CPROVER_ensures(__CPROVER_return_value == g_enc_out)
+;
+extern char *g_enc_out; extern int g_enc_rc;
 #endif
